@@ -218,6 +218,9 @@ def make_pipefuncs(prog: dict, log=None, hook=None, **extra):
             kw["output_picker"] = dict_picker
         if fn["int_axes"] and fn.get("shape_via", "map") == "pipefunc":
             kw["internal_shape"] = fn_internal_shape(prog, fn)
+        dflt = {r: root_default(r, sp, prog["sizes"]) for r, sp in prog["roots"].items() if sp.get("default") and sp.get("default_on") == fn["name"]}
+        if dflt:
+            kw["defaults"] = dflt
         kw.update(extra.get(fn["name"], {}))
         pfs.append(PipeFunc(body, on, mapspec=mapspec_str(fn), **kw))
     return pfs
@@ -251,8 +254,31 @@ def used_roots(prog: dict) -> list[str]:
     return [r for r in prog["roots"] if r in used]
 
 
+def root_default(name: str, spec: dict, sizes: dict):
+    """The default value a root declares (spec["default"]): "used" -- the caller omits the input and the default (of
+    the right extent) is the input; "longer"/"shorter"/"same" -- the caller's input overrides a default of another
+    extent / other values, which must then play no role at all."""
+    mode = spec.get("default")
+    if mode is None:
+        return None
+    if mode == "longer":
+        sizes = {a: n + 1 for a, n in sizes.items()}
+    elif mode == "shorter":
+        sizes = {a: max(1, n - 1) for a, n in sizes.items()}
+    return root_value(name, spec, sizes, "D")
+
+
 def make_inputs(prog: dict, variant: str = "") -> dict:
-    return {r: root_value(r, prog["roots"][r], prog["sizes"], variant) for r in used_roots(prog)}
+    return {r: root_value(r, prog["roots"][r], prog["sizes"], variant) for r in used_roots(prog)
+            if prog["roots"][r].get("default") != "used"}  # fmt: skip
+
+
+def with_used_defaults(prog: dict, inputs: dict) -> dict:
+    env = dict(inputs)
+    for r in used_roots(prog):
+        if prog["roots"][r].get("default") == "used" and r not in env:
+            env[r] = root_default(r, prog["roots"][r], prog["sizes"])
+    return env
 
 
 def output_names(prog: dict) -> list[str]:
@@ -295,7 +321,7 @@ def denotation(prog: dict, inputs: dict | None = None, only: set | None = None, 
     `calls_out`, if given, receives (function name, traced call text, ids) for every call in evaluation order.
     """
     sizes = prog["sizes"]
-    env = dict(make_inputs(prog) if inputs is None else inputs)
+    env = with_used_defaults(prog, make_inputs(prog) if inputs is None else inputs)
     for fn in prog["funcs"]:
         if only is not None and not (set(fn["outs"]) & only):
             continue
@@ -343,6 +369,9 @@ def expected_call_counts(prog: dict) -> dict[str, int]:
 def labels(prog: dict) -> list[str]:
     labs = set()
     prod = func_of_output(prog)
+    for r, sp in prog["roots"].items():
+        if sp.get("default"):
+            labs.add("root-default:" + ("used" if sp["default"] == "used" else "overridden") + ("-array" if sp["axes"] else "-scalar"))
     for fn in prog["funcs"]:
         if not fn["mapspec"]:
             labs.add("no_mapspec")
@@ -427,6 +456,7 @@ def map_programs(
     max_size: int = 3,
     root_pool: int = 4,  # number of index names the root inputs draw their axes from (small -> more zips)
     allow_none: bool = True,
+    allow_root_defaults: bool = False,
 ):
     sizes: dict[str, int] = {}
 
@@ -561,6 +591,13 @@ def map_programs(
                 vals = {storage.pop(o, None) for o in fn["outs"]} - {None}
                 if vals:
                     storage[",".join(fn["outs"])] = sorted(vals)[0]
+    if allow_root_defaults:
+        for r, sp in roots.items():
+            users = [fn["name"] for fn in funcs if any(q["name"] == r for q in fn["params"])]
+            mode = draw(st.sampled_from([None, None, None, "used", "longer", "shorter", "same"]))
+            if users and mode:
+                sp["default"] = mode
+                sp["default_on"] = users[draw(st.integers(0, len(users) - 1))]
     # sizes for every used index name (JSON object)
     return {"sizes": dict(sizes), "roots": roots, "funcs": funcs, "storage": storage}
 
